@@ -343,7 +343,7 @@ pub fn c15(args: &Args) -> i32 {
         }
         return bad as i32;
     }
-    let run = Run::new(args, "model_checking", 110.0, 2400.0);
+    let run = Run::new(args, "model_checking", 110.0, 1500.0);
     let scs = scenarios(run.quick());
     let bound = if run.quick() { 2 } else { 3 };
     run.set_rule("interleavings of 2-3 real threads on one real FilePersist (immediate durability) at the cfg-guarded scheduling points of the persist layer (every lock acquisition of append / flush / compact / read / delete_shard and the points between the three steps of flush and compact): for each scenario (append||flush with a buffered update, append||append same/other shard, append||compact, append;flush||append, flush||flush, append||delete_shard, 3-thread mixes; buffer_size 1/2/10000) ALL schedules with at most B preemptions (iterative context bounding 0,1,..,B). Oracle per schedule: no deadlock; the final served multiplicity of every tuple = number of acknowledged appends (each update applied exactly once), the same after a clean restart, and for the directory copied at EVERY scheduling step (all completed writes durable) recovery yields every append acknowledged before that step exactly once and in-flight ones at most once. non-trivial = schedules with at least one context switch between unfinished threads; states = scheduling points visited");
